@@ -115,11 +115,11 @@ theorem NP_resolveOpts (c : Cfg) (po : Option Opts) (key : Str) (m : Obj) : NP (
     repeat' split at h
     all_goals simp_all
 
-theorem NP_defaultVal : ∀ (t : Ty) (d : Str), NP (defaultVal t d)
+theorem NP_defaultVal (c : Cfg) (hc : c.pinned = false) : ∀ (t : Ty) (d : Str), NP (defaultVal c t d)
   | .ptr t, d => by
-    unfold defaultVal; split
-    · simp [NP]
-    · exact NP_map _ (NP_defaultVal t d)
+    unfold defaultVal
+    simp only [hc, Bool.false_and, Bool.false_eq_true, if_false]
+    exact NP_map _ (NP_defaultVal c hc t d)
   | .prim k, d => by unfold defaultVal; exact NP_convertFromString k d
   | .struct _, d => by simp [NP, defaultVal]
   | .map _, d => by simp [NP, defaultVal]
@@ -261,9 +261,9 @@ mutual
 theorem NP_withValue (c : Cfg) (hc : c.pinned = false) :
     ∀ (t : Ty) (o : Option Opts) (j : J), tagsOK t = true → NP (withValue c o t j)
   | .ptr t, o, j, h => by
-    unfold withValue; split
-    · simp [NP]
-    · exact NP_map _ (NP_withValue c hc t o j (by simpa [tagsOK] using h))
+    unfold withValue
+    simp only [hc, Bool.false_and, Bool.false_eq_true, if_false]
+    exact NP_map _ (NP_withValue c hc t o j (by simpa [tagsOK] using h))
   | .prim k, o, j, _ => by unfold withValue; exact NP_primWithValue c o k j
   | .struct fs, o, j, h => by
     unfold withValue
@@ -288,9 +288,9 @@ theorem NP_withValue (c : Cfg) (hc : c.pinned = false) :
 theorem NP_elemValue (c : Cfg) (hc : c.pinned = false) :
     ∀ (t : Ty) (j : J), tagsOK t = true → NP (elemValue c t j)
   | .ptr t, j, h => by
-    unfold elemValue; split
-    · simp [NP]
-    · exact NP_map _ (NP_elemValue c hc t j (by simpa [tagsOK] using h))
+    unfold elemValue
+    simp only [hc, Bool.false_and, Bool.false_eq_true, if_false]
+    exact NP_map _ (NP_elemValue c hc t j (by simpa [tagsOK] using h))
   | .prim k, j, _ => by
     unfold elemValue
     split
@@ -318,10 +318,9 @@ theorem NP_elemValue (c : Cfg) (hc : c.pinned = false) :
 theorem NP_mapElemValue (c : Cfg) (hc : c.pinned = false) :
     ∀ (t : Ty) (j : J), tagsOK t = true → NP (mapElemValue c t j)
   | .ptr t, j, h => by
-    unfold mapElemValue; split
-    · simp [NP]
-    · simp only [hc, Bool.false_and, Bool.false_eq_true, if_false]
-      exact NP_map _ (NP_mapElemValue c hc t j (by simpa [tagsOK] using h))
+    unfold mapElemValue
+    simp only [hc, Bool.false_and, Bool.false_eq_true, if_false]
+    exact NP_map _ (NP_mapElemValue c hc t j (by simpa [tagsOK] using h))
   | .prim k, j, _ => by
     unfold mapElemValue
     split
@@ -348,9 +347,9 @@ theorem NP_mapElemValue (c : Cfg) (hc : c.pinned = false) :
 theorem NP_absentRequired (c : Cfg) (hc : c.pinned = false) :
     ∀ (t : Ty), tagsOK t = true → NP (absentRequired c t)
   | .ptr t, h => by
-    unfold absentRequired; split
-    · simp [NP]
-    · exact NP_map _ (NP_absentRequired c hc t (by simpa [tagsOK] using h))
+    unfold absentRequired
+    simp only [hc, Bool.false_and, Bool.false_eq_true, if_false]
+    exact NP_map _ (NP_absentRequired c hc t (by simpa [tagsOK] using h))
   | .prim _, _ => by simp [NP, absentRequired]
   | .struct fs, h => by
     unfold absentRequired
@@ -372,8 +371,8 @@ theorem NP_unmFields (c : Cfg) (hc : c.pinned = false) :
     obtain ⟨⟨h1, h2⟩, h3⟩ := h
     unfold unmFields
     have hf := NP_fieldCore (c := c) (name := name) (tag := tag) (isSlice := t.isSlice) (m := m)
-      (wv := fun o j => withValue c o t j) (ar := fun _ => absentRequired c t) (dv := defaultVal t) (z := zero t)
-      hc h1 (fun o j => NP_withValue c hc t o j h2) (NP_absentRequired c hc t h2) (NP_defaultVal t)
+      (wv := fun o j => withValue c o t j) (ar := fun _ => absentRequired c t) (dv := defaultVal c t) (z := zero t)
+      hc h1 (fun o j => NP_withValue c hc t o j h2) (NP_absentRequired c hc t h2) (NP_defaultVal c hc t)
     have hr := NP_unmFields c hc rest m h3
     unfold NP at *
     intro h
